@@ -342,6 +342,11 @@ package server
 //@   at-call peer.fsm.bgpMessageResetStats() requires called(clearedNeighborState)
 //@   at-call ^s.dropAdjRIBIn(peer, peer.configuredRFlist()) requires restartTimerExpired
 //@   at-call peer.llgrFamilies() requires restartTimerExpired
+// "... or with long-lived GR they are instead kept carrying LLGR_STALE (NO_LLGR routes dropped)": whenever the restart
+// timer of a restarting peer expires, one of the two happens - the retained routes are dropped, or they go through
+// the long-lived treatment (also when the long-lived timers are already running from an earlier loss: the routes of
+// the session that came and went in between are stale without the community)
+//@   at-call drainChannel(peer.fsm.outgoingCh.Out()) requires nextStateIdle ==> called(llgrFamilies) || called(dropAdjRIBIn)
 // "when End-of-RIB has arrived for every GR family ... routes not re-announced are withdrawn": the sweep at that point
 // covers every family of the session, not only those whose marker came in the last UPDATE
 //@   at-call peer.adjRibIn.DropStale( requires called(configuredRFlist)
